@@ -125,7 +125,7 @@ func main() {
 	if s := os.Getenv("VERIF_SEED"); s != "" {
 		fmt.Sscanf(s, "%d", &seed)
 	}
-	if *tier == "quick" && !*updateLock && *lock != "" && *fnre == "" {
+	if !*updateLock && *lock != "" && *fnre == "" {
 		lk := readLock(*lock)
 		skipObl = func(name string) bool { return lk[lockKey(*tags, name)] == "u" }
 	}
